@@ -10,7 +10,7 @@ cd $WT && git checkout -q -- . && git status --short | grep -v '^??' && { echo "
 rm -f tests/demo*.rs tests/seeddemo*.rs; mkdir -p tests && cp $D tests/seeddemo$K.rs
 echo "== demo without patch (must pass)"; cargo test --offline --test seeddemo$K 2>&1 | grep -E "^test result|error\[|panicked" | head -3
 git apply $P || { echo "PATCH DOES NOT APPLY"; exit 8; }
-echo "== baseline with patch"; mv tests/seeddemo$K.rs /tmp/_seeddemo.rs; cargo nextest run --workspace --no-fail-fast --tool-config-file pb:/w/lib/nextest.toml --profile pb --test-threads 8 --offline -E 'not test(seeddemo) and not binary(~seeddemo)' 2>&1 | grep -E "Summary|error\[" | head -3
+echo "== baseline with patch"; mv tests/seeddemo$K.rs /tmp/_seeddemo.rs; cargo nextest run --workspace --no-fail-fast --tool-config-file pb:/w/lib/nextest.toml --profile pb --test-threads 8 --offline 2>&1 | grep -E "Summary|error\[" | head -3
 cp /tmp/_seeddemo.rs tests/seeddemo$K.rs; echo "== no-default-features build"; cargo build --offline --no-default-features 2>&1 | grep -E "^error" | head -3
 echo "== demo with patch (must fail)"; cargo test --offline --test seeddemo$K 2>&1 | grep -E "^test result|error\[" | head -3
 git checkout -q -- . ; rm -f tests/seeddemo$K.rs
